@@ -595,6 +595,14 @@ func genC15(g *Gen, idx int) *Plan {
 		p.Broker.Injects = append(p.Broker.Injects, g.injects(name, int(g.Range(0, 5)), 600, sg.t+400, cids[i]+":b")...)
 	}
 	p.Broker.NoRoute = true // routing between sessions at the broker is not the gateway's doing
+	if g.Bool(0.3) {
+		// the gateway connects every client with its own credentials; the broker refuses one client by
+		// its id: what the refusal does to that session must not show in any other
+		u := "gwuser"
+		p.Cfg.GwUser = &u
+		p.Cfg.GwHasPass, p.Cfg.GwPass = true, []byte("gw-secret")
+		p.Broker.RefuseCIDs = []string{cids[g.Intn(np-1)]} // (never the last one: somebody connects after the refusal)
+	}
 	p.Cfg.HorizonMs = end + 3000
 	return p
 }
